@@ -25,6 +25,9 @@ for name in names:
     meta_p = os.path.join(d, "meta.json")
     meta = json.load(open(meta_p)) if os.path.exists(meta_p) else {}
     pid = meta.get("breaks_property") or name.split("-")[0]
+    if meta.get("neutralised_by"):
+        rows.append((name, pid, "neutralised by fix " + meta["neutralised_by"], ""))
+        continue
     also = meta.get("also_run", [])
     scratch = tempfile.mkdtemp(prefix="mut.", dir="/var/tmp")
     try:
